@@ -123,7 +123,8 @@ CHECKS['C06'] = dict(
          "(output_instance of each CPPType subclass, model with prename/name kept structural) emit denotes exactly that type under [dcl.meaning]; the pinned array printer and the "
          "data-member-pointer case are refuted by witnesses (the first was repaired, the second is a recorded finding). Correspondence: thousands of random declarator trees written by an "
          "independent west-const printer are re-printed by parse_file; the text must equal the model's and g++ must find decltype(original) and decltype(reprinted) the same type; "
-         "acceptance: every generated declaration and every parser-inc stub header that g++ accepts must parse.",
+         "acceptance: every generated declaration and every parser-inc stub header that g++ accepts must parse; name-lookup scenarios, several declarators per declaration, near-identical types, "
+         "and template arguments (defaults depending on earlier parameters, function types holding template-ids and commas) are compared with g++ decltype of the instantiated members.",
     note=TB + "the bison grammar (modifier order, name lookup, templates) is not modelled: the parse half is covered only by the g++ differential; g++ 12 decides type identity.",
     technique="Coq proof (invariant denotes(pr t pre c) = meaning c (apply pre t) by induction on types) + round-trip differential check with g++ std::is_same as oracle",
     ref="5/C06")
@@ -152,12 +153,12 @@ CHECKS['C15'] = dict(
     text="Proof (partial): the hand-written scanners that index strings by hand are transcribed with CHECKED primitives (s[i] beyond the terminator, substr/compare past the end and "
          "fuel exhaustion are faults) and proved total for EVERY byte string: the #define constructor with parse_parameters (progress of the parameter loop), save_expansion (the replacement list cut into text/parameter/__VA_OPT__ nodes, any nesting, incl. the wrapping length p - 1 - start), the macro-argument scanner "
          "used in #if together with the caller's substr (final position within the string), the raw-string scanner (plus soundness: what is reported closed had the shape "
-         "delim ( body ) delim quote), the blank-stripping of show_line and the .N line splitter; each pinned variant is refuted by a witness (the repaired defects). Correspondence: the real "
+         "delim ( body ) delim quote), the blank-stripping of show_line, the .N line splitter and the substitution step r_expand (no access to the argument vector or to a string out of range, for every node list and every argument vector, also shorter than the parameter list; its correspondence runs in the C08 check); each pinned variant is refuted by a witness (the repaired defects). Correspondence: the real "
          "functions (ASan build, called through harness/scan_tool) agree with the extracted model on every string up to length 4-5 over each function's delimiter alphabet and on random "
          "longer ones. Whole-program totality is explored, not proved: parse_file and interrogate (ASan/UBSan build and normal build) on generated valid headers, token/byte mutations of "
          "those and of tests/ and parser-inc/, enumerated directive/operator/literal/unbalanced/deep-nesting cases, -D strings and .N files must exit 0/1 in time, without signal, "
          "sanitizer report or uncaught exception; error diagnostics imply non-zero exit and no output file.",
-    note=TB + "the bison automaton, scope/type code and builder are outside the model (explored by the streams only); ASan cannot see reads inside a std::string small buffer; "
+    note=TB + "the bison automaton, scope/type code and builder are outside the model (explored by the streams only); ASan cannot see reads inside a std::string small buffer; a non-recoverable UBSan report ends with exit status 1 like a diagnosed parse error, so the report text decides; "
          "time limit 30 s per run.",
     technique="Coq proof (totality of checked-index scanner models, refutation of the pinned variants) + scanner-level differential check (ASan) + sanitizer fuzzing of the whole programs (a search, supporting the proof, not replacing it)",
     ref="5/C15")
@@ -166,12 +167,12 @@ CHECKS['C08'] = dict(
     text="Proof (partial): for every table of object-like macros (self-, mutual and forward reference, any nesting), every text and every amount of fuel, the lexer's stack of active "
          "expansions (get_identifier / expand_manifest / push_expansion with _ignore_manifest and should_ignore_manifest) produces exactly the tokens of the hide-set algorithm of C11 "
          "6.10.3.4 (lock-step simulation: the tokens of a frame carry the hide set of the macros of that frame and below), also with #define/#undef/redefinition interleaved with text; "
-         "completed results do not depend on fuel; the # operator: CPPManifest::stringify as a character-level state machine yields, for every argument made of well-formed tokens, the literal 6.10.3.2 prescribes (the pinned machine, which let a quote of the other kind toggle its state, is refuted). Correspondence: stringify against the extracted machine on generated texts; generated object-like programs through parse_file -E, the extracted machine and gcc -E (which also validates the Coq "
+         "completed results do not depend on fuel; the # operator: CPPManifest::stringify as a character-level state machine yields, for every argument made of well-formed tokens, the literal 6.10.3.2 prescribes (the pinned machine, which let a quote of the other kind toggle its state, is refuted). The SUBSTITUTION STEP of function-like macros (CPPManifest::r_expand over the nodes that save_expansion cuts the replacement list into: parameters, #, ##, __VA_ARGS__, nested __VA_OPT__ groups, the GCC comma rule) is modelled with checked accesses: __VA_OPT__ contributes exactly when what __VA_ARGS__ is replaced by has text (for every argument vector; looking at the first variable argument only is refuted), a plain parameter is replaced by the expanded argument, an operand of # by the stringified spelling and an operand of ## by the spelling; CPPManifest(define).expand(args) is compared with the extracted model on generated #define lines and argument vectors. Correspondence: stringify against the extracted machine on generated texts; generated object-like programs through parse_file -E, the extracted machine and gcc -E (which also validates the Coq "
          "semantics). Function-like replacement is compared with gcc -E token for token on two generated fragments on which the code conforms (nested calls in arguments; #, ##, "
          "__VA_ARGS__, __VA_OPT__, literals holding macro/parameter names and commas, empty and parenthesised-comma arguments, #undef, push_macro/pop_macro, -D, multi-line calls); "
          "departures outside them are recorded witness programs.",
-    note=TB + "function-like macros are not modelled in Coq (tested against gcc on the stated fragments); gcc 12 -E -P -std=c++23 is the conforming reference.",
-    technique="Coq proof (simulation between the expansion stack and hide sets, object-like fragment) + three-way differential check parse_file -E / extracted model / gcc -E; gcc-differential testing for function-like fragments",
+    note=TB + "of function-like macros the substitution step is modelled (argument collection is C15's extract_args model; rescanning of the result is tested against gcc on the stated fragments, not modelled); gcc 12 -E -P -std=c++23 is the conforming reference.",
+    technique="Coq proof (simulation between the expansion stack and hide sets, object-like fragment; the substitution step r_expand with its __VA_OPT__ rule) + direct-call correspondence of stringify and expand + three-way differential check parse_file -E / extracted model / gcc -E; gcc-differential testing for function-like fragments",
     ref="5/C08")
 
 CHECKS['C04'] = dict(
@@ -209,9 +210,11 @@ CHECKS['C01'] = dict(
          "pinned 'static std::string holder = call' is refuted by a two-call witness (second call returns the first value and does not run); the NUL-freeness hypothesis is shown "
          "necessary. Correspondence/specification by EXECUTION: instrumented generated libraries (inheritance incl. multiple/virtual, static/const/virtual methods, overloads, defaults, "
          "operators, data members of every scalar kind, namespace function, typedef'd template instantiation) x {-string} x {-promiscuous}: the -oc file is compiled (ASan+UBSan) and every "
-         "exported wrapper and variant is called with boundary values and compared with the direct C++ call (return value, trace log, states of this and argument objects, cast offsets).",
-    note=TB + "the generated wrapper text is not modelled statement by statement: the model's claim (wrapper = direct call) is checked by running the real generated code; only the -c back-end "
-         "with -fnames is executed; g++ 12 with ASan/UBSan is the execution platform.",
+         "exported wrapper and variant is called with boundary values and compared with the direct C++ call (return value, trace log, states of this and argument objects, cast offsets; "
+         "classes with their own copy/move constructors, operator [] and the synthesized item assignment). The -python (simple) back-end is built as an extension module and executed in CPython: every "
+         "scalar kind through echo functions, methods, static methods, data members and typedefs with boundary values.",
+    note=TB + "the generated wrapper text is not modelled statement by statement: the model's claim (wrapper = direct call) is checked by running the real generated code; the -c back-end is executed in full, the -python back-end for scalar kinds; "
+         " g++ 12 with ASan/UBSan is the execution platform.",
     technique="Coq proof (wrapper state machine equals direct calls for all histories; pinned holder refuted) + execution-based differential check of the generated wrappers against the wrapped C++",
     ref="5/C01")
 
